@@ -436,6 +436,14 @@ impl Mon {
                         self.r.violate("C12", &format!("C12/{}/field-outside-remit/{}", info.kind.name(), f), format!("bank {}: {} changed by {:?}", bk, f, info.kind));
                     }
                 }
+                if info.kind == Kind::ForceTokenlessRepayComplete {
+                    // the risk admin may mark the wind-down complete only on a bank the group admin
+                    // opted into token-less repayment
+                    self.r.count(if pre.flags & (1 << 5) != 0 { "C12.force_complete_on_opted_in_bank" } else { "C12.force_complete_on_bank_not_opted_in" });
+                    if post.flags & (1 << 6) != 0 && pre.flags & (1 << 6) == 0 && pre.flags & (1 << 5) == 0 {
+                        self.r.violate("C12", "C12/ForceTokenlessRepayComplete/completion-flag-set-on-a-bank-not-opted-in", format!("bank {}: flags {:#b} -> {:#b}", bk, pre.flags, post.flags));
+                    }
+                }
                 if diff.contains(&"flags") {
                     let mask: u64 = match info.kind {
                         Kind::SetupEmissions | Kind::UpdateEmissionsParameters => 0b11,
